@@ -258,6 +258,89 @@ func shapeSetUnion(r *common.Rng) *Prog {
 		Views: []View{{Name: "main", Params: []string{"p0"}, Body: eTr(eName("p0"), ".", "other", st...)}}}
 }
 
+// transforms over the entries of a map (scope variable bound to (key, value) pairs), nested inside a transform over a
+// list and reading both the pair's attributes and the outer scope variable
+func shapeMapTransform(r *common.Rng) *Prog {
+	n := 1 + r.Intn(3)
+	var fields []Stmt
+	for i := 0; i < n; i++ {
+		fields = append(fields, sAssign(fieldPool[(i+r.Intn(2)*3)%len(fieldPool)], eLit(vInt(int64(r.Intn(9))))))
+	}
+	rec := eTr(eName("p0"), ".", "other", fields...)
+	ty := []string{"other", "set"}[r.Intn(2)]
+	entries := eTr(eName("m"), "e", ty, sAssign("k", eAttr(eName("e"), "key")), sAssign("v", eAttr(eName("e"), "value")))
+	inner := eTr(eName("m"), "e", "other",
+		sAssign("kk", eBin("ADD", eAttr(eName("e"), "key"), eLit(vStr("!")))),
+		sAssign("s", eBin("ADD", eAttr(eName("e"), "value"), eName("x"))))
+	var xs []*Expr
+	for i := 0; i < 1+r.Intn(3); i++ {
+		xs = append(xs, eLit(vInt(int64(r.Intn(5)))))
+	}
+	outer := eTr(eList(xs...), "x", "other", sAssign("x0", eName("x")), sAssign("rows", inner))
+	st := []Stmt{
+		sLet("m", rec), sAssign("entries", entries), sAssign("nested", outer),
+		sAssign("n", eCall(".count", eName("m"))), sAssign("has", eBin("IN", eLit(vStr("f")), eName("m"))),
+		sAssign("m_after", eName("m")),
+	}
+	return &Prog{Typed: true, Family: "map-transform", Main: "main", Scope: []KV{{"p0", vInt(0)}},
+		Views: []View{{Name: "main", Params: []string{"p0"}, Body: eTr(eName("p0"), ".", "other", st...)}}}
+}
+
+// ---- fixed regression inputs of the two known findings, and a self-check of the oracle's attribution ----
+func fixedLetRebind() *Prog {
+	st := []Stmt{sLet("p1", eBin("ADD", eName("p1"), eLit(vInt(41)))), sAssign("a", eName("p1"))}
+	return &Prog{Typed: true, Family: "let-rebinds-parameter", Main: "main", Scope: []KV{{"p0", vInt(0)}, {"p1", vInt(1)}},
+		Views: []View{{Name: "main", Params: []string{"p0", "p1"}, Body: eTr(eName("p0"), ".", "other", st...)}}}
+}
+func fixedNestedLet() *Prog {
+	inner := eTr(eName("p0"), ".", "other", sLet("x", eLit(vInt(2))), sAssign("f", eName("x")))
+	st := []Stmt{sLet("x", eLit(vInt(1))), sLet("r", inner), sAssign("out", eName("x")), sAssign("inner", eName("r"))}
+	return &Prog{Typed: true, Family: "nested-let-rebinds-outer-let", Main: "main", Scope: []KV{{"p0", vInt(0)}},
+		Views: []View{{Name: "main", Params: []string{"p0"}, Body: eTr(eName("p0"), ".", "other", st...)}}}
+}
+
+// oracleSelfCheck feeds the verdict function synthetic observations of the two fixed inputs: the known keys must be
+// produced for exactly the behaviour they describe and for nothing else (a widened attribution fails here).
+func oracleSelfCheck(c *common.Ctx) {
+	expect := func(name string, j *judged, want string) {
+		got, _ := verdict(j)
+		c.Hist("oracle-self-check")
+		if got != want {
+			c.Fail("oracle-self-check:"+name, fmt.Sprintf("oracle self-check %q: verdict key %q, expected %q", name, got, want), j.p)
+		}
+	}
+	p := fixedLetRebind()
+	ref, lets, err := refRun(p)
+	if err != nil {
+		c.Fail("oracle-self-check:reference", "the reference does not define the fixed let-rebinding input", p)
+		return
+	}
+	mk := func(scope []KV) *judged { return &judged{p: p, ref: ref, lets: lets, o: obs{V: ref, Scope: scope}} }
+	expect("let-rebind: caller variable holds the let's value", mk([]KV{{"p0", vInt(0)}, {"p1", vInt(42)}}), "caller-binding-rebound-by-let")
+	expect("let-rebind: caller variable holds something else", mk([]KV{{"p0", vInt(0)}, {"p1", vInt(999)}}), "caller-binding-changed:let-rebinds-parameter")
+	expect("let-rebind: caller variable lost", mk([]KV{{"p0", vInt(0)}}), "caller-binding-changed:let-rebinds-parameter")
+	expect("let-rebind: another caller variable changed", mk([]KV{{"p0", vInt(7)}, {"p1", vInt(42)}}), "caller-binding-changed:let-rebinds-parameter")
+	expect("let-rebind: nothing changed", mk([]KV{{"p0", vInt(0)}, {"p1", vInt(1)}}), "")
+	q := fixedNestedLet()
+	qref, qlets, err := refRun(q)
+	if err != nil {
+		c.Fail("oracle-self-check:reference", "the reference does not define the fixed nested-let input", q)
+		return
+	}
+	with := func(out int64) *judged {
+		v := cloneVal(qref)
+		for i := range v.M {
+			if v.M[i].Key == "out" {
+				v.M[i].V = vInt(out)
+			}
+		}
+		return &judged{p: q, ref: qref, lets: qlets, o: obs{V: v, Scope: []KV{{"p0", vInt(0)}}}}
+	}
+	expect("nested-let: outer reads the inner let's value", with(2), "outer-let-rebound-by-nested-let")
+	expect("nested-let: outer reads some other value", with(3), "wrong-value:nested-let-rebinds-outer-let")
+	expect("nested-let: lexical value", with(1), "")
+}
+
 // ---- the operator x kind x kind matrix (bounded-exhaustive, depth 1) ----
 var binops = []string{"NO_Op", "EQ", "NE", "LT", "LE", "GT", "GE", "IN", "CONTAINS", "NOT_IN", "NOT_CONTAINS", "ADD", "SUB", "MUL",
 	"DIV", "MOD", "POW", "AND", "OR", "BUTNOT", "BITAND", "BITOR", "BITXOR", "COALESCE", "WHERE", "TO_MATCHING", "TO_NOT_MATCHING", "FLATTEN"}
@@ -384,7 +467,7 @@ func main() {
 	}
 	c := common.Setup("C10")
 	defer c.Finish()
-	c.Res.Rule = "each case = (views of one transform application, caller's scope) evaluated by the real eval.EvaluateView in a worker subprocess; streams: typed programs over the modelled operators (lets reused by later statements, helper views, iterations whose scope variable shadows a binding), the Appendix-B shapes (a list bound once and concatenated twice; where/flatten/transform whose scope variable equals an outer binding; set-typed transforms producing duplicates; plus unions of unsorted int / string sets with repeats), a let that takes a parameter's name / an outer let's name from inside a nested transform, the operator x kind x kind matrix at depth 1, all compositions of two operators over the literal pool whose value the reference defines (depth 2), blind mutants of typed programs (model comparison only); distinct = distinct program JSON; non-trivial = the main body applies at least one operator, transform or call"
+	c.Res.Rule = "each case = (views of one transform application, caller's scope) evaluated by the real eval.EvaluateView in a worker subprocess; streams: typed programs over the modelled operators (lets reused by later statements, helper views, iterations whose scope variable shadows a binding), the Appendix-B shapes (a list bound once and concatenated twice; where/flatten/transform whose scope variable equals an outer binding; set-typed transforms producing duplicates; plus unions of unsorted int / string sets with repeats, and transforms over map entries nested in a list transform), the two fixed regression inputs of the known findings, a let that takes a parameter's name / an outer let's name from inside a nested transform, the operator x kind x kind matrix at depth 1, all compositions of two operators over the literal pool whose value the reference defines (depth 2), blind mutants of typed programs (model comparison only); distinct = distinct program JSON; non-trivial = the main body applies at least one operator, transform or call"
 	par := 8
 
 	if c.Replay != "" {
@@ -420,10 +503,13 @@ func main() {
 	var progs []*Prog
 	feat := map[string]int{}
 
+	// 0. the fixed regression inputs of the two known findings (first, every run) and the oracle's self-check
+	oracleSelfCheck(c)
+	progs = append(progs, fixedLetRebind(), fixedNestedLet())
 	// A. Appendix-B shapes + the let-rebinding family
 	nshape := 40 * scale
 	for i := 0; i < nshape; i++ {
-		progs = append(progs, shapeConcatTwice(c.Rng.Fork()), shapeScopeVarShadow(c.Rng.Fork()), shapeSetTransformDup(c.Rng.Fork()), shapeSetUnion(c.Rng.Fork()))
+		progs = append(progs, shapeConcatTwice(c.Rng.Fork()), shapeScopeVarShadow(c.Rng.Fork()), shapeSetTransformDup(c.Rng.Fork()), shapeSetUnion(c.Rng.Fork()), shapeMapTransform(c.Rng.Fork()))
 		if i%8 == 0 {
 			progs = append(progs, shapeLetRebind(c.Rng.Fork()), shapeNestedLetRebind(c.Rng.Fork()))
 		}
